@@ -53,12 +53,21 @@ class StreamMetric(State):
     n: int = 0
 
 
-FEATURES = ["plain", "scope", "record", "spawn", "nested", "missing-item", "spawn-blocked", "record-cleanup", "nested-enter-timeout"]
+FEATURES = ["plain", "scope", "record", "spawn", "nested", "missing-item", "spawn-blocked", "record-cleanup", "nested-enter-timeout", "odd-items"]
 PLACES = ["same", "other-scope", "outside", "other-task"]
+
+
+ODD_ITEMS = [None, 0, False, "", (), StopAsyncIteration(), None, ValueError("item"), [], 0.0]
 
 
 def programs(tier: str):
     yield from _two_programs(tier)
+    # items a stream wrapper might mistake for an end / error marker
+    for k in (1, 2, 4, 7, 10):
+        for end in ("normal", "error"):
+            for place in PLACES:
+                for mode in (["full"], ["break", 1], ["aclose", max(1, k - 1)]):
+                    yield {"k": k, "end": end, "feature": "odd-items", "created": "in-scope", "place": place, "mode": mode}
     # sources that are not bare generator functions
     for form in ("wrapper", "partial", "object"):
         for created in ("in-scope", "outside"):
@@ -389,6 +398,10 @@ def execute(program, ch: Chooser) -> Result:  # noqa: C901, PLR0912, PLR0915
                   yield i
               elif feature == "missing-item" and i == 0:
                   yield MISSING  # a legitimate item that happens to be the MISSING constant
+              elif feature == "odd-items":
+                  # legitimate items a wrapper might mistake for a marker: None, False, 0, "", (),
+                  # an exception instance, StopAsyncIteration itself
+                  yield ODD_ITEMS[i % len(ODD_ITEMS)]
               else:
                   yield i
               gen_probe(f"after-item{i}")
@@ -577,8 +590,8 @@ def execute(program, ch: Chooser) -> Result:  # noqa: C901, PLR0912, PLR0915
             "aclose": "closed",
             "cancel": "consumer-cancelled",
         }[mode[0]]
-        want_items = [("MISSING" if (feature == "missing-item" and i == 0) else i) for i in range(n_expected)]
-        seen_items = [("MISSING" if x is MISSING else x) for x in got_items]
+        want_items = [("MISSING" if (feature == "missing-item" and i == 0) else (repr(ODD_ITEMS[i % len(ODD_ITEMS)]) if feature == "odd-items" else i)) for i in range(n_expected)]
+        seen_items = [("MISSING" if x is MISSING else (repr(x) if feature == "odd-items" else x)) for x in got_items]
         if finished and "driver_error" not in outcome_box:
             if seen_items != want_items or outcome_box.get("out") != want_out:
                 viols.append(
